@@ -664,6 +664,36 @@ func (c *Ctx) overflowGuarded(bin *ssa.BinOp) (string, bool) {
 			}
 		}
 	}
+	// the comparison kept in a named boolean (`productOverflows := b > 0 && a > MaxInt64/b; if err == nil &&
+	// !productOverflows { a * b }`): on every way to the operation the comparison is known to be false - or the
+	// operand the short circuit tests first known not to be positive (see above)
+	est := func(cond core.Cond) bool {
+		cmp, ok := cond.V.(*ssa.BinOp)
+		if !ok {
+			return false
+		}
+		if zero, isZero := core.ConstInt(cmp.Y); isZero && zero == 0 && (same(cmp.X, bin.X) || same(cmp.X, bin.Y)) {
+			return (cmp.Op == token.GTR && !cond.True) || (cmp.Op == token.LEQ && cond.True)
+		}
+		if !((cmp.Op == token.GTR && !cond.True) || (cmp.Op == token.LEQ && cond.True)) {
+			return false
+		}
+		rhs, ok := cmp.Y.(*ssa.BinOp)
+		if !ok || !isMaxInt64(rhs.X) {
+			return false
+		}
+		matches := (same(cmp.X, bin.X) && same(rhs.Y, bin.Y)) || (same(cmp.X, bin.Y) && same(rhs.Y, bin.X))
+		switch bin.Op {
+		case token.MUL:
+			return rhs.Op == token.QUO && matches && guardedPositiveShortCircuit(cmp, rhs.Y)
+		case token.ADD:
+			return rhs.Op == token.SUB && matches
+		}
+		return false
+	}
+	if core.MustHold(bin.Parent(), est)[bin.Block()] {
+		return "on every way to the operation the pre-check against MaxInt64 (kept in a variable) is known to have failed", true
+	}
 	return "no dominating comparison against MaxInt64 / b (resp. MaxInt64 - y) on the operands", false
 }
 
